@@ -749,6 +749,7 @@ class SchedulingSolver(BaseModelWithJson):
         """target a min or max for a variable, without the z3.Optimize solver.
         The loop continues ever and ever until the next value is more than 90%"""
         num_iter = 0
+        num_push = 0
         solution = False
         total_time = 0
         current_variable_value = None
@@ -834,12 +835,18 @@ class SchedulingSolver(BaseModelWithJson):
                     )
                     break
             self._solver.push()
+            num_push += 1
             if kind == "min":
                 self.append_z3_assertion(variable < current_variable_value)
                 print(f"\tChecking better value < {current_variable_value}")
             else:
                 self.append_z3_assertion(variable > current_variable_value)
                 print(f"\tChecking better value > {current_variable_value}")
+
+        # remove the "find a better value" bounds: they are not part of the problem,
+        # the solver must stay usable for further calls
+        for _ in range(num_push):
+            self._solver.pop()
 
         print(f"\ttotal number of iterations: {num_iter}")
         if current_variable_value is not None:
